@@ -91,6 +91,9 @@ def vocabulary():
     add("if-no-scope", g.if_(g.binop("==", I("xx"), L(1)), g.decl("yy", L(77)), g.decl("yy", L(78))), ["yy"])
     add("seq-value", P(g.seq([L(1), L(2)]), g.seq([L(1), L(2)], semi=True)), [])
     add("top-level-break", g.brk(0, L(3)), [])
+    add("eval-declares-here", g.seq([g.evl(g.decl("ev", g.binop("+", I("xx"), L(1)))), P(I("ev"))]), [])
+    add("eval-in-call-scope", P(g.call(g.lam([g.param("xx")], g.evl(g.binop("+", I("xx"), L(1)))), [L(40)])), [])
+    add("eval-break", P(g.for_do([g.cl_it(g.lv_id("aa"), g.lst([L(1), L(2), L(3)]))], g.evl(g.if_(g.binop("==", I("aa"), L(2)), g.brk(0, I("aa")))))), [])
     return V, 3
 
 
